@@ -19,12 +19,12 @@ CLAIMED = {
  "C08": ("fault enumeration + trace validation", "probe-based failure injected at every sub-message index of every engine operation kind (fault sweep) plus natural failures; TLC checks storage-digest equality on failure, no swallowed sub-failure, no temporary residue"),
  "C09": ("role matrix + trace validation", "every privileged execute variant x 8 sender kinds, before and after role transfers, executed on the real contracts; TLC checks ok => sender holds the role in the recorded pre-state, failure => digest unchanged"),
  "C11": ("trace validation with TLA+ funding oracle", "schedule, premium fraction (vAMM TWAP - oracle TWAP recomputed by the specification), next funding time, vault<->fund transfer, and charging/checkpoint on trade, withdraw, close, reversal"),
+ "C13": ("twin executions + TLA+ equivalence predicate", "the same history executed in lock-step on a cw20 and a native deployment, the native call attaching exactly what the cw20 call pulled; TLC compares results, positions, vAMM state and per-party balance deltas (Twin.tla); divergences matching the recorded findings F3 / F11 are reported as KNOWN-FINDING"),
  "C14": ("gate matrix + trace validation", "paused x open x registered x operation matrix with live positions, shutdown from every subset of already-closed vAMMs, random registry histories with membership queries"),
  "C19": ("TLA+ big-natural judgement of the real type's operation table", "every ordered operand pair over sign x 16 magnitudes up to 2^128-1: all operators, checked forms, predicates, display/parse/serde round trips evaluated on the real Integer and judged by TLC against BigNat arithmetic"),
  "C20": ("configuration sequences + cap histories + trace validation", "random UpdateConfig sequences at boundary values on engine and vAMM, decimals check at registration, trades against changing caps and whitelist membership"),
 }
 NA = {
- "C13": "check being built (twin runner)",
 }
 def main():
     checks = []
